@@ -113,3 +113,10 @@ def mapping_diff(m1, m2, rename=None):
         if a[:6] != b[:6] or abs(a[6] - b[6]) > 1e-9 * (1 + abs(a[6])) or a[7] != b[7]:
             return 'row %r vs %r' % (a, b)
     return None
+
+
+def nodal_row_index(snap):
+    """Indices of the portfolio's own nodal rows (the last len(map_nodal_restr) rows of type N; structured assets bring inner N rows of their own)."""
+    k = len(snap.map_nodal_restr or [])
+    N = [i for i, t in enumerate(snap.cType or '') if t == 'N']
+    return N[len(N) - k:] if k else []
